@@ -506,6 +506,31 @@ func checkConversionErrors(c *Ctx, r *Rec, info *types.Info, pms map[string]*ast
 				continue
 			}
 			tests := false
+			// in any form: a nil test of the parameter whose failing edge ends differently from
+			// the good one, in a function that raises a panic (if p == nil { return }; panic(...))
+			{
+				var hg *FG
+				panics := false
+				ast.Inspect(fd.Body, func(x ast.Node) bool {
+					if call, ok := x.(*ast.CallExpr); ok && noReturnCall(info, call) {
+						panics = true
+					}
+					return true
+				})
+				ast.Inspect(fd.Body, func(x ast.Node) bool {
+					be, ok := x.(*ast.BinaryExpr)
+					if !ok || !panics || (be.Op != token.NEQ && be.Op != token.EQL) || !(isObj(info, be.X, p) || isObj(info, be.Y, p)) {
+						return true
+					}
+					if hg == nil {
+						hg = newFG(info, fd.Body)
+					}
+					if _, isBranch := hg.locate(be); isBranch && hg.errorEdgeDiverges(be) {
+						tests = true
+					}
+					return true
+				})
+			}
 			ast.Inspect(fd.Body, func(x ast.Node) bool {
 				// if p != nil { ... panic(...) ... }   (the condition is exactly the nil test)
 				is, ok := x.(*ast.IfStmt)
